@@ -562,7 +562,7 @@ func runC17(c *eng.Ctx) {
 					// the clock value may only reach TimeRange.Start / TimeRange.End
 					allowed = true
 					clock := s.Instr.(ssa.Value)
-					for _, b := range fn.Blocks {
+					for _, b := range eng.BlocksT(fn) {
 						for _, in := range b.Instrs {
 							if st, ok := in.(*ssa.Store); ok && eng.DependsOn(st.Val, func(x ssa.Value) bool { return x == clock }) {
 								fa, isF := st.Addr.(*ssa.FieldAddr)
